@@ -1,7 +1,6 @@
 package main
 
 import (
-	"os"
 	"strings"
 	"fmt"
 	"strconv"
@@ -263,9 +262,9 @@ func (ex *Exec) verifyFunc(fn *ssa.Function, c *Contract) {
 	}
 	ex.cover(st, "pre")
 	var fdecl *frameDecl
-	// the modifies clause is CHECKED (frame obligations) for the functions that
-	// carry a C20-tagged clause; elsewhere it is a declared, unchecked assumption
-	if c.HasMod && (c.Props["C20"] || os.Getenv("GOVC_ALLFRAMES") != "") {
+	// the modifies clause is CHECKED (frame obligations) unless the contract says
+	// `frame assumed <reason>`, which is listed among the assumptions
+	if c.HasMod && c.FrameAssumed == "" {
 		fd, err := ex.parseFrame(st, c, env)
 		if err != nil {
 			ex.errors = append(ex.errors, fmt.Sprintf("modifies clause: %v", err))
@@ -353,4 +352,13 @@ func (ex *Exec) verifyFunc(fn *ssa.Function, c *Contract) {
 		ex.frameChecks(st2, fr0, fdecl, c.File)
 		ex.endPath(st2, "ret")
 	})
+	// a `call f#k requires ...` clause that matched no call site on any explored
+	// path is a contract that no longer binds to the code, never a success
+	if !ex.aborted {
+		for _, cr := range c.CallReqs {
+			if cr.CallN != 0 && !ex.callReqHit[cr] && ex.active(cr.Props) {
+				ex.errors = append(ex.errors, fmt.Sprintf("%s: call-site clause `call %s#%d requires %s` binds to no call site", funcKey(fn), cr.Callee, cr.CallN, cr.Text))
+			}
+		}
+	}
 }
